@@ -48,6 +48,65 @@ Proof. reflexivity. Qed.
 Lemma gen_standins : K_einfo.standins_pickle_by_dict = true.
 Proof. reflexivity. Qed.
 
+(* MaybeEncodingError.__reduce__ / the rebuild function it names, executed from the data the
+   translator extracted from their bodies on this run:
+     ps   = [getattr(self, a) for a in mee_reduce_attrs]        (AttributeError = None)
+     obj  = __new__;  obj.<name> = ps[k] for (name, k) in mee_rebuild_sets, in order;
+     Exception.__init__(obj, *[ps[k] for k in mee_rebuild_init])   (sets obj.args)
+   Without a __reduce__ the constructor is called again (BaseException.__reduce__). *)
+Fixpoint dict_get (d : dict) (k : str) : option pyarg :=
+  match d with
+  | [] => None
+  | (k', v) :: r => if str_eqb k k' then Some v else dict_get r k
+  end.
+
+Fixpoint all_some {A} (l : list (option A)) : option (list A) :=
+  match l with
+  | [] => Some []
+  | Some a :: r => match all_some r with Some t => Some (a :: t) | None => None end
+  | None :: _ => None
+  end.
+
+Definition gen_unpickle_mee (x : pexc) : option pexc :=
+  if K_einfo.mee_has_reduce then
+    match all_some (map (dict_get (x_attrs x)) K_einfo.mee_reduce_attrs) with
+    | Some ps =>
+        match all_some (map (fun kv => match nth_error ps (snd kv) with
+                                       | Some v => Some (fst kv, v)
+                                       | None => None
+                                       end) K_einfo.mee_rebuild_sets),
+              all_some (map (nth_error ps) K_einfo.mee_rebuild_init) with
+        | Some sets, Some args => Some (mk_exc CMee args (dict_update [] sets))
+        | _, _ => None
+        end
+    | None => None
+    end
+  else unpickle_exc false x.
+
+(* the shape of every MaybeEncodingError object its constructor builds (and of nothing else):
+   args = (exc, value) and __dict__ = {exc, value}, in this order *)
+Definition mee_wf (x : pexc) : Prop :=
+  x_cls x = CMee /\
+  exists a b, x_args x = [a; b] /\ x_attrs x = [(s_exc, a); (s_value, b)].
+
+Lemma construct_mee_wf a b x : construct CMee [a; b] = Some x -> mee_wf x.
+Proof.
+  cbn. intros H. inversion H; subst. split; [reflexivity|].
+  eexists _, _. split; reflexivity.
+Qed.
+
+(* On such objects the code's __reduce__ + rebuild function, as translated on this run, return
+   the object itself, which is what the model's [unpickle_exc] says when the switch is on.
+   (A __reduce__ that passes other attributes, swaps them, forgets one, or a rebuild function
+   that stores or passes them differently makes this lemma fail; one whose shape is not
+   understood at all is a translator error.) *)
+Lemma gen_mee_rebuild : forall x,
+    mee_wf x -> gen_unpickle_mee x = Some x /\ unpickle_exc mee_repaired x = Some x.
+Proof.
+  intros [c ar d] [Hc [a [b [Ha Hd]]]]. cbn [x_cls x_args x_attrs] in *. subst c ar d.
+  split; reflexivity.
+Qed.
+
 (* Traceback.__init__ executed with the generated decision function *)
 Definition gen_marker_frame : option frame :=
   match K_einfo.marker_lineno with
@@ -627,4 +686,180 @@ Proof.
            intros Hm. f_equal. apply Hall. assumption.
     + split; [discriminate|]. split; [reflexivity|]. exists O. split; [reflexivity|].
       intros ->. discriminate.
+Qed.
+
+(* ================================================================== *)
+(* E. the normal failure path, end to end                               *)
+
+(* exc_pickle_err and payload_pickle_err look at args and attributes only *)
+Lemma essence_pickle_err : forall e e',
+    essence e' = essence e ->
+    payload_pickle_err (PInfo e') = payload_pickle_err (PInfo e).
+Proof.
+  intros e e' H. unfold essence in H. injection H as _ _ Ha Hd _ _.
+  cbn [payload_pickle_err]. unfold exc_pickle_err. rewrite Ha, Hd. reflexivity.
+Qed.
+
+(* Round-trip stability, stated about *picklable* records only: pickle.dumps of the record
+   does not raise (the model's [roundtrip_gen] alone never consults [pickle_err]).  For every
+   n >= 1 the n-fold round trip exists, has the same essence, and is itself picklable, so
+   every dumps along the chain is defined. *)
+Theorem roundtrip_stable_picklable : forall fx e n,
+    payload_pickle_err (PInfo e) = None ->
+    stable_class fx (exc_of (ei_exc e)) -> (1 <= n)%nat ->
+    exists e', iter_rt fx n e = Some e' /\ essence e' = essence e /\
+               payload_pickle_err (PInfo e') = None.
+Proof.
+  intros fx e n Hp Hs Hn.
+  destruct (roundtrip_stable_gen fx e n Hs Hn) as [e' [H1 H2]].
+  exists e'. split; [assumption|]. split; [assumption|].
+  rewrite (essence_pickle_err e e' H2). assumption.
+Qed.
+
+(* ... and conversely a record that does not pickle is never transported: put raises *)
+Lemma unpicklable_record_not_sent : forall env n job i ok e r,
+    env n = PutOk -> payload_pickle_err (PInfo e) = Some r ->
+    do_put env n (MReady job i ok (PInfo e)) = PutExc r.
+Proof.
+  intros env n job i ok e r He Hp. unfold do_put. rewrite He.
+  cbn [msg_pickle_err]. rewrite Hp. reflexivity.
+Qed.
+
+(* "picklable" of the statement, for the exception a task raises: pickling it does not raise,
+   and its class reproduces it -- a plain class (BaseException.__reduce__) with a well-formed
+   __dict__, or MaybeEncodingError as its constructor builds it, when [fx] says that its
+   __reduce__ restores the stored strings *)
+Definition picklable_exc (fx : bool) (x : pexc) : Prop :=
+  exc_pickle_err x = None /\
+  match x_cls x with
+  | CPlain _ => NoDup (map fst (x_attrs x))
+  | CMee => fx = true /\ mee_wf x
+  end.
+
+Lemma picklable_stable : forall fx x, picklable_exc fx x -> stable_class fx x.
+Proof.
+  intros fx x [_ H]. unfold stable_class. destruct (x_cls x); [assumption|apply H].
+Qed.
+
+Lemma handle_task_raises_ok : forall mf env n job i t x live text ptb ptext c,
+    env n = PutOk -> env (S n) = PutOk ->
+    copy_tb mf live = Some c -> exc_pickle_err x = None ->
+    handle_task mf env n job i (Raises t x live text) ptb ptext =
+    ([MAck job i; MReady job i false (PInfo (mk_ei t (EWT x text) c text false))],
+     inr (S (S n))).
+Proof.
+  intros mf env n job i t x live text ptb ptext c E0 E1 Hc Hp.
+  unfold handle_task, do_put. rewrite E0. cbn [msg_pickle_err].
+  unfold task_result, mk_einfo. rewrite Hc, E1.
+  cbn [msg_pickle_err payload_pickle_err ei_exc exc_of]. rewrite Hp. reflexivity.
+Qed.
+
+(* THE MAIN CLAUSE.  A task that raises exception object x of type t (any class: nothing
+   distinguishes base exceptions) with live traceback [live] and traceback text [text], where x
+   is picklable and the pipe accepts the two messages: the worker sends the ACK and exactly one
+   READY for the job, with ok = False, carrying the record e = ExceptionInfo((t, x, live)), and
+   goes on with put index n+2.  The record holds the type, the exception (wrapped with the text),
+   the text and the copied traceback c = Traceback(live) -- bounded by mf+3 nodes --, and for
+   every k >= 1 the k-fold pickle round trip of e (k = 1: what the parent reads) exists, is
+   again picklable and has exactly type t, class / args / attributes of x, the text and c. *)
+Theorem raising_task_delivered : forall fx mf env n job i t x live text ptb ptext,
+    live <> [] ->
+    env n = PutOk -> env (S n) = PutOk ->
+    picklable_exc fx x ->
+    exists c e,
+      copy_tb mf live = Some c /\
+      (-1 <= mf -> Z.of_nat (length c) <= mf + 3) /\
+      mk_einfo mf t x live text false = Some e /\
+      e = mk_ei t (EWT x text) c text false /\
+      handle_task mf env n job i (Raises t x live text) ptb ptext =
+      ([MAck job i; MReady job i false (PInfo e)], inr (S (S n))) /\
+      mreadies (fst (handle_task mf env n job i (Raises t x live text) ptb ptext)) = [(job, i)] /\
+      forall k, (1 <= k)%nat ->
+        exists e', iter_rt fx k e = Some e' /\
+                   essence e' = (t, x_cls x, x_args x, x_attrs x, text, c) /\
+                   payload_pickle_err (PInfo e') = None.
+Proof.
+  intros fx mf env n job i t x live text ptb ptext Hl E0 E1 Hx.
+  destruct live as [|f r]; [contradiction|].
+  pose (c := copy_from mf 0 f r).
+  assert (Hc : copy_tb mf (f :: r) = Some c) by reflexivity.
+  pose proof (handle_task_raises_ok mf env n job i t x (f :: r) text ptb ptext c E0 E1 Hc (proj1 Hx))
+    as Hh.
+  exists c, (mk_ei t (EWT x text) c text false).
+  split; [exact Hc|].
+  split; [intros Hm; exact (proj1 (copy_tb_length mf (f :: r) c Hm Hc))|].
+  split; [unfold mk_einfo; rewrite Hc; reflexivity|].
+  split; [reflexivity|].
+  split; [exact Hh|].
+  split; [rewrite Hh; reflexivity|].
+  intros k Hk.
+  destruct (roundtrip_stable_picklable fx (mk_ei t (EWT x text) c text false) k) as [e' [H1 [H2 H3]]].
+  - exact (proj1 Hx).
+  - apply picklable_stable. exact Hx.
+  - exact Hk.
+  - exists e'. split; [exact H1|]. split; [rewrite H2; reflexivity|exact H3].
+Qed.
+
+(* the same inside the loop: the two messages, then the rest of the script with completed + 1 *)
+Corollary raising_task_in_loop : forall fx mf env mt n job i t x live text ptb ptext rest cpl,
+    live <> [] -> env n = PutOk -> env (S n) = PutOk -> picklable_exc fx x ->
+    loop_guard mt cpl = true ->
+    exists e, mk_einfo mf t x live text false = Some e /\
+      run_loop mf env mt (RTask job i (Raises t x live text) ptb ptext :: rest) cpl n =
+      ([MAck job i; MReady job i false (PInfo e)] ++ fst (run_loop mf env mt rest (cpl + 1) (S (S n))),
+       snd (run_loop mf env mt rest (cpl + 1) (S (S n)))).
+Proof.
+  intros fx mf env mt n job i t x live text ptb ptext rest cpl Hl E0 E1 Hx Hg.
+  destruct (raising_task_delivered fx mf env n job i t x live text ptb ptext Hl E0 E1 Hx)
+    as [c [e [_ [_ [He [_ [Hh _]]]]]]].
+  exists e. split; [exact He|]. apply loop_continues; assumption.
+Qed.
+
+(* THE COMPANION.  The raised exception does not pickle (exc_pickle_err x = Some r: r is the
+   repr of what pickle raises), the traceback of that failure is non-empty and the pipe accepts
+   three messages: the first READY is not sent, the job is answered by exactly one READY with
+   ok = False carrying the MaybeEncodingError record (args = (r, repr of the ExceptionInfo)),
+   put index n+3; that record is picklable, and when MaybeEncodingError's __reduce__ restores
+   the stored strings (fx = true) it survives every number k >= 1 of round trips. *)
+Theorem raising_task_unpicklable : forall fx mf env n job i t x live text ptb ptext r,
+    live <> [] -> ptb <> [] ->
+    env n = PutOk -> env (S n) = PutOk -> env (S (S n)) = PutOk ->
+    exc_pickle_err x = Some r ->
+    exists e e2,
+      mk_einfo mf t x live text false = Some e /\
+      do_put env (S n) (MReady job i false (PInfo e)) = PutExc r /\
+      encoding_record mf r (PInfo e) ptb ptext = Some e2 /\
+      handle_task mf env n job i (Raises t x live text) ptb ptext =
+      ([MAck job i; MReady job i false (PInfo e2)], inr (S (S (S n)))) /\
+      mreadies (fst (handle_task mf env n job i (Raises t x live text) ptb ptext)) = [(job, i)] /\
+      ei_type e2 = CMee /\
+      exc_of (ei_exc e2) = mk_exc CMee [AStr r; AStr einfo_repr]
+                                  [(s_exc, AStr r); (s_value, AStr einfo_repr)] /\
+      (exists c, copy_tb mf ptb = Some c /\ ei_tb e2 = c) /\
+      ei_text e2 = ptext /\
+      payload_pickle_err (PInfo e2) = None /\
+      (fx = true -> forall k, (1 <= k)%nat ->
+         exists e', iter_rt fx k e2 = Some e' /\ essence e' = essence e2 /\
+                    payload_pickle_err (PInfo e') = None).
+Proof.
+  intros fx mf env n job i t x live text ptb ptext r Hl Hp E0 E1 E2 Hx.
+  destruct live as [|f rr]; [contradiction|].
+  pose (e := mk_ei t (EWT x text) (copy_from mf 0 f rr) text false).
+  assert (He : mk_einfo mf t x (f :: rr) text false = Some e) by reflexivity.
+  assert (Hres : task_result mf (Raises t x (f :: rr) text) = Some (false, PInfo e))
+    by (unfold task_result; rewrite He; reflexivity).
+  assert (Hack : do_put env n (MAck job i) = PutOk) by (unfold do_put; rewrite E0; reflexivity).
+  assert (Hput : do_put env (S n) (MReady job i false (PInfo e)) = PutExc r)
+    by (apply unpicklable_record_not_sent; [exact E1|exact Hx]).
+  destruct (encoding_error_path mf env n job i (Raises t x (f :: rr) text) ptb ptext false (PInfo e) r
+              Hack Hres Hput Hp E2) as [e2 [G1 [G2 [G3 [G4 [G5 G6]]]]]].
+  assert (Hpk : payload_pickle_err (PInfo e2) = None)
+    by (cbn [payload_pickle_err]; rewrite G4; reflexivity).
+  exists e, e2.
+  split; [exact He|]. split; [exact Hput|]. split; [exact G1|]. split; [exact G2|].
+  split; [rewrite G2; reflexivity|].
+  split; [exact G3|]. split; [exact G4|]. split; [exact G5|]. split; [exact G6|].
+  split; [exact Hpk|].
+  intros Hfx k Hk. apply roundtrip_stable_picklable; [exact Hpk| |exact Hk].
+  unfold stable_class. rewrite G4. exact Hfx.
 Qed.
